@@ -25,7 +25,8 @@ RULE = (
     "the distribution on objects, which must be uniform on the brute-force object set; plus whole-draw-sequence enumeration "
     "of the real recursive sampler for n <= 4 while the root has <= 10 objects (distribution by multiplying 1/(hi-lo+1)), explicit (also out-of-range) draw "
     "sequences, and sizes with no object (InvalidOperationError, no draw). "
-    "(stats, 15%) the same per-rule enumeration + exact composition + whole-sequence cross-check on REAL specifications over "
+    "(stats, 15%) the same per-rule enumeration (the model comparison subsamples r when the count exceeds 70; the exact "
+    "composition uses every r) + exact composition + whole-sequence cross-check on REAL specifications over "
     "words WITH STATISTICS (harness/universes/c08_stats.py: parameters kept, summed over a product, dropped when identically "
     "0 -> `zeroes`, two parent parameters on one child parameter -> contradiction skipping), for every (n, parameters), "
     "uniform among the brute-force objects with those parameters; the real DisjointUnion/CartesianProduct objects of the "
@@ -60,19 +61,25 @@ LEVEL_TEXT = (
     "CartesianProduct.random_sample_sub_objects with extra parameters (C08_threshold_union, C08_threshold_product). "
     "C08_valid_compositions_spec/_complete/_get_terms: _valid_compositions enumerates, once each, exactly the matrices in the "
     "reliance-profile boxes with the right column sums, loses no split inside the children's own bounds, and without "
-    "parameters enumerates exactly the compositions utils.compositions (re-translated from /repo each run) gives get_terms. "
+    "parameters enumerates exactly the compositions utils.compositions (re-translated from /repo each run) gives get_terms "
+    "(_complete under the hypothesis that the parent's declared minima are at most the sums of the children's). "
     "C08_uniform: for every specification of atoms, unions and products without parameters whose counts satisfy the get_terms "
-    "recurrences and whose classes honour the minimum-size/atom contract, the specification-level sampler returns every parse "
-    "tree t of the root with probability exactly 1/count(size t) (probability semantics over Q of independent uniform "
+    "recurrences and whose classes honour the minimum-size/atom contract (a product rule has a child and its declared "
+    "minimum is at most the sum of its children's), the specification-level sampler returns every parse "
+    "tree t of the root with probability exactly 1/count(size t), for every recursion budget `fuel` above the height of t "
+    "(probability semantics over Q of independent uniform "
     "draws); C08_counted, C08_support; C08_reject_empty: count 0 => InvalidOperationError and no draw consumed. "
-    "C08_equivalence_step / _path: equivalence rules and equivalence paths are one-child unions (covered by C08_uniform); "
-    "such a step or chain preserves the count and the distribution exactly. "
+    "C08_equivalence_step / _path: a one-child union step (EquivalenceRule with a DisjointUnion constructor, a collapsed "
+    "EquivalencePathRule = ONE such class in the model) preserves the count and the distribution exactly, and so does a "
+    "chain of SEPARATE unary classes; that a collapsed path behaves as the chain it collapses is not a theorem here (on "
+    "objects it is C07_path_contract); EquivalenceRules whose constructor is a Complement cannot be sampled and are outside. "
     "C08_uniform_true_counts (+ C08_rules_local): with the rules packaged as C01's term operators (locality proved), if T is "
     "the true enumeration (genuine rules) and the root is productive, ANY table satisfying the recurrences equals T on the "
     "root (C01 unique_solution), so every parse tree has probability 1/(true number of objects). "
-    "C08_uniform_params: the same END-TO-END statement for specifications whose classes carry extra parameters: sampling "
+    "C08_uniform_params: the same statement for specifications whose classes carry extra parameters: sampling "
     "with a parameter assignment returns every parse tree of the root with that size AND those parameter values with "
-    "probability exactly 1/count(size, parameters) — unions whose dictionaries drop, rename or merge statistics (zeroes, "
+    "probability exactly 1/count(size, parameters), where count is the entry of a HYPOTHESISED get_terms table (teq to "
+    "C09's union_table / product_table; no theorem links it to the true number of objects when there are parameters) — unions whose dictionaries drop, rename or merge statistics (zeroes, "
     "contradiction skipping), fixed_values, products splitting the parameters over _valid_compositions; hypotheses: the "
     "tables are what DisjointUnion/CartesianProduct.get_terms compute (C09's union_table / product_table / dict_sem), "
     "well-formed dictionaries (C09's wf_dict, values among the child's parameters), every child parameter determined "
@@ -90,11 +97,35 @@ LEVEL_TEXT = (
     "fixed_values {k: 0}) determines every parameter, and fixed_honest means there exactly that untracked statistics are 0 on "
     "all objects; C08_uniform_params_refuted: with every hypothesis but fixed_honest the conclusion is FALSE in the model "
     "(all words over {a,b} under a root tracking nothing: 'a' has probability 0, count 2, the draw r=2 raises RuntimeError) "
-    "— the open finding. Examples: words over {a,b} counting a's (binomial tables) satisfy every hypothesis."
+    "— the open finding. Examples: words over {a,b} counting a's (binomial tables) satisfy every hypothesis. "
+    "OBJECTS (section 8, shared development Count/ParseTrees*.v with C07 and C12): osample / opsample are sample / psample "
+    "with the sub-samplers returning objects and `objs = tuple(self.backward_map(subobjs)); random.choice(objs)` on the way "
+    "up (rule.py:542-543; `choice` = one draw of an index). C08_sampler_is_unparse(_params): the object sampler runs in "
+    "lock step with the tree sampler (same randint/choice calls and ranges, same exceptions: `sim`, C08_sim_prob) and "
+    "whenever the tree sampler returns t it returns the object unparse t of a well-formed tree - the composition of "
+    "backward maps IS unparse and every random.choice is over a one-element tuple. C08_wf_trees_coincide(_params): C08's "
+    "wf / pwf, sizes and parameter tuples coincide with those of the C07 vocabulary (and, through C12_parse_trees_coincide, "
+    "with C12's wf_tree). C08_uniform_objects / C08_uniform_objects_params: under the hypotheses of C08_uniform(_params) "
+    "AND of C07_objects_are_parse_trees (bijection contracts node_ok, closed, productivity certificate) and `describes` / "
+    "`pdescribes` (the two descriptors describe the same rules; atoms have one object of the minimum size and values; on "
+    "tuples of the children's arities the C07 parameter maps are the dict_sem of the dictionaries), the sampler returns "
+    "EVERY OBJECT of the root with that size (and parameters) with probability exactly 1/count; C08_objects_support: it "
+    "returns nothing that is not the object of a well-formed tree of the root. Examples: 'ab' as an object has probability "
+    "1/4 among the words of length 2 and 1/2 among those with one a (by the theorem and by vm_compute)."
 )
 LEVEL_NOTE = (
-    "Objects = parse trees: that distinct parse trees are distinct objects and backward maps are bijections is C07's "
-    "contract (checked here by brute force on every case). C08_uniform_params needs fixed_honest, which EXCLUDES exactly the "
+    "Objects vs parse trees: C08_uniform / C08_uniform_params speak of parse trees; C08_uniform_objects(_params) carry "
+    "them to objects through C07_objects_are_parse_trees, whose hypotheses (the bijection contracts of the strategies' "
+    "forward/backward maps, incl. the derived forms through C07_equivalence_contract / C07_path_contract) are user-code "
+    "contracts: checked by brute force only in the words/stats cases (35% of the stream), sizes <= N, and the tree-vs-object "
+    "count only inside whole-sequence enumeration (n <= 3-4, root <= 10 objects); the 65% `rules` cases have no objects. The "
+    "object samplers osample/opsample are hand transcriptions that never run against the code (run_c08 returns trees); "
+    "their tie is (i) the tree samplers they differ from by two lines ARE compared, (ii) parse/unparse of the model are "
+    "compared with real forward/backward maps by the C07 check (queries 5/6), (iii) the oracle's Composer maps the real "
+    "per-rule distributions through the real backward maps and divides by len(outs). A strategy whose backward_map yields "
+    "0 or >= 2 objects violates node_ok: then random.choice is a real draw, outside every theorem (never generated). "
+    "The count in C08_uniform_objects is `cnt` (the recurrences' solution; = true number via C08_uniform_true_counts when "
+    "parameter-free), in _params the table entry. C08_uniform_params needs fixed_honest, which EXCLUDES exactly the "
     "open known finding 'eqpath-child-statistic-untracked-by-parent-sampling' (in the corpus and in 4% of the stats stream, "
     "judged by the oracle, matched by finding_match only when fixed_honest fails on that specification): an EquivalencePathRule "
     "whose child has a parameter the parent lacks fixes it to 0 when sampling while counting sums over all its values -> "
@@ -116,13 +147,23 @@ TRUSTED = [
     "hand transcription of disjoint.py / cartesian.py / rule.py / specification.py, tied by per-draw and per-sequence comparison",
     "the enumerating random source of harness/props/c08.py replaces random.randint / random.choice (randint on an empty "
     "range raises ValueError as random.randint does)",
-    "harness/universes/c08_stats.py (word classes with statistics, user-level strategies) — checked against brute force",
+    "harness/universes/c08_stats.py (word classes with statistics, user-level strategies) — checked against brute force; "
+    "its StatAtom sampler (ignores the parameters) is what the K_ATOM branch of psample models: the library's AtomStrategy "
+    "raises NotImplementedError when the class has extra parameters",
+    "the harness's own reference semantics on which oracle verdicts rest: ref_union_weights, ref_product_weights, "
+    "check_hypotheses(_params).image, Composer, and path_rules' Python re-implementation of the Complement inversion",
+    "Count/ParseTrees.v osample and Count/ParseTreesParams.v opsample (object-returning samplers: hand transcription of "
+    "rule.py:531-543 on top of sample/psample; not run against the code, see LEVEL_NOTE)",
     "definitions the statements are written in: ptsize / tpar / pwf and the hypothesis predicates of Count/SampleParamsSpec.v; "
     "C09's dict_sem / union_table / product_table (Count/Constructors*.v); C01's srule / genuine / local / pumps (Spec/Eval.v, Forest/Spec.v)",
 ]
 ASSUMPTIONS = [
     "counts are what get_terms computes (C01/C09) and are non-negative; classes honour minimum_size_of_object / is_atom / "
-    "get_minimum_value (hypotheses of C08_uniform / C08_uniform_params, checked by brute force on the shipped universes in every case)",
+    "get_minimum_value (hypotheses of C08_uniform / C08_uniform_params; checked by brute force for sizes 0..N in the "
+    "words/stats cases only; `pumps`/`genuine` of C08_uniform_true_counts are checked nowhere in C08)",
+    "C08_uniform_objects(_params): the hypotheses of C07_objects_are_parse_trees (node_ok = bijection contracts of the "
+    "forward/backward maps, verified classes are atoms or empty, closed, rank certificate) and describes/pdescribes; "
+    "decidable equality of objects",
     "C08_uniform: no extra parameters, rules are atoms / disjoint unions (incl. equivalence rules and paths) / Cartesian "
     "products with one object per parse tree",
     "C08_uniform_params: well-formed dictionaries, every child parameter determined, fixed_honest (excludes the open finding); "
